@@ -27,11 +27,12 @@ BARE_NAMES = ['foo', 'data-flag', 'itemscope', 'nowrap']
 ATTR_INDEXABLE = ['data-k', 'title', 'href', 'lang']
 PLAIN_VALUES = ['x', 'main', 'a b', '', '1', 'k1', 'n', u'café', 'e0', 'e1']
 QUOTED_VALUES = ['say "hi"', "it's", 'a<b', 'x>y', ' lead', 'trail ', u'ü中', 'a "b" \'c\'', '"', 'two  spaces']
-CLASS_VALUES = ['a', 'a b', 'k', 'x  y', ' lead', 'trail ', 'a b c', 'b a', 'k k2']
+# incl. white space of `str.isspace()` beyond ASCII / C's isspace (U+00A0, U+3000, U+2003, U+0085, \x1c): leading, trailing, inner
+CLASS_VALUES = ['a', 'a b', 'k', 'x  y', ' lead', 'trail ', 'a b c', 'b a', 'k k2', '\xa0a', 'a\u3000', 'k\xa0k2', '\u2003a b\x1c']
 STYLE_VALUES = ['color: red', 'color: red; font-weight: bold', 'COLOR:Red', 'a:b;;c: d', 'float:left;', ' padding-top : 5px ',
-                'color: red; color: blue', 'background: url(x.png)']
+                'color: red; color: blue', 'background: url(x.png)', '\xa0color\u3000: red\x85', 'color:\u2003red\xa0;\x1cfloat:left']
 ODD_STYLE = ['', 'junk', ';', 'a:']
-TEXT_PLAIN = ['x', 'hello', ' ', 'a b', '\n', 'tail ', u'été', 'q"uo\'te', 'x > y', '  two', 't']
+TEXT_PLAIN = ['x', 'hello', ' ', 'a b', '\n', 'tail ', u'été', 'q"uo\'te', 'x > y', '  two', 't', '\xa0', 'x\u3000y', '\x85']
 TEXT_ATOMS = ['&amp;', '&lt;', '&nbsp;', '&#65;', '&#x41;', '<!--c-->', '<!-- note -->', '<!---->']
 
 
@@ -414,7 +415,7 @@ def lookup_keys(d):
                 elif k == 'name':
                     names.append(v)
                 elif k == 'class':
-                    classes.extend(v.split())
+                    classes.extend(w for w in v.strip().split(' ') if w)       # the library's reading: only U+0020 separates
     uniq = lambda l: sorted(set(l))
     attr = []
     for a in d.get('attr_idx', []):
